@@ -28,7 +28,7 @@ func search(seed uint64, n int, t tools) {
 			if err != nil {
 				panic(err)
 			}
-			for _, m := range []string{"single", "lazy", "mux"} {
+			for _, m := range []string{"single", "lazy", "mux", "muxlazy"} {
 				c.mode = m
 				outcomes["seg:"+runSegCase(c, t, &evals, false)]++
 			}
@@ -45,7 +45,7 @@ func search(seed uint64, n int, t tools) {
 						if n < 1000 && di%2 == 1 {
 							continue
 						}
-						for _, m := range []string{"single", "lazy", "mux"} {
+						for _, m := range []string{"single", "lazy", "mux", "muxlazy"} {
 							c := gridSegCase(g, cnt, ti, di, m)
 							outcomes["seg:"+runSegCase(c, t, &evals, false)]++
 							outcomes["seg-grid"]++
@@ -64,6 +64,25 @@ func search(seed uint64, n int, t tools) {
 			}
 			c := genSegCase(r, class)
 			outcomes["seg:"+runSegCase(c, t, &evals, false)]++
+		}
+		// truncated inputs (mdat last, the end of the file missing): the tool has to refuse them or conserve every
+		// sample; what is not allowed is a clean exit with samples missing
+		rt := hx.NewRng(seed ^ 0x7c07)
+		for i := 0; i < n/4+8; i++ {
+			c := genSegCase(rt, 0)
+			c.mdatFirst = false
+			c.mode = []string{"muxlazy", "lazy", "muxlazy", "mux", "single"}[i%5]
+			total := 0
+			for _, tr := range c.tracks {
+				for _, s := range tr.samples {
+					total += int(s.size)
+				}
+			}
+			if total < 2 {
+				continue
+			}
+			c.cut = rt.Range(1, total-1)
+			outcomes["seg-truncated:"+runSegCase(c, t, &evals, false)]++
 		}
 	}
 	searchRest(seed, n, t, &evals, outcomes)
